@@ -11,6 +11,7 @@ import Peppi.Lemmas.C01G
 import Peppi.Lemmas.PortMap
 import Peppi.PremisesViews
 import Peppi.Lemmas.Example
+import Peppi.Lemmas.Unified2
 set_option linter.unusedVariables false
 namespace Peppi.Props.C01
 
@@ -173,5 +174,12 @@ theorem example_A_roundtrip :
     ∀ n, n < (r.encodeAny s.version (portOccupancy s) none).length →
       ∃ e, readSlp T0 {} ((r.encodeAny s.version (portOccupancy s) none).take n) = .err e :=
   _root_.Peppi.example_A_roundtrip 
+
+/- from `Peppi.Lemmas.Unified2` -/
+open Extracted in
+theorem write_game_any (T : TextOracle) (r : Replay) (s : Start) (gk : Option GeckoBlocks) (h : r.WFAny T s gk)
+    (hmax : assertMaxVersion s.version = .ok ()) (ge : Option End) (hge : r.fend.map gameEnd = ge.map Res.ok) :
+    writeSlp (r.gameAny s ge gk) = .ok (r.encodeAny s.version (portOccupancy s) gk) :=
+  _root_.Peppi.write_game_any T r s gk h hmax ge hge
 
 end Peppi.Props.C01
